@@ -79,6 +79,24 @@ Theorem C04_roundtrip_wrapped :
 Proof. exact roundtrip_wrapped. Qed.
 Print Assumptions C04_roundtrip_wrapped.
 
+(* The connection layer (mtproto.Conn.newEncryptedMessage, always the client side): on each of
+   its three branches -- compression disabled, payload above the threshold (gzip_packed body),
+   payload at or below it (explicit length) -- the server decrypts exactly the session's salt
+   and session id, the caller's msg_id and seq_no, and the body selected by the branch. *)
+Theorem C04_conn_roundtrip :
+  forall (sha256 : list Z -> list Z) (aes_enc aes_dec : list Z -> list Z -> list Z),
+    aes_inverse aes_enc aes_dec ->
+    forall (threshold : Z) (k : authkey) (salt session msg_id seq_no : Z) (payload gz rnd : list Z),
+      let h := {| h_salt := salt; h_session := session; h_msg_id := msg_id; h_seq_no := seq_no |} in
+      let body := conn_body threshold payload gz in
+      length (ak_id k) = 8%nat -> hdr_ok h ->
+      Z.of_nat (length body) mod 4 = 0 -> Z.of_nat (length body) < 2 ^ 31 ->
+      rnd_enough (32 + Z.of_nat (length body)) rnd ->
+      exists ct, conn_encrypt sha256 aes_enc threshold k salt session msg_id seq_no payload gz rnd = Ok ct /\
+                 decrypt_msg sha256 aes_dec Server k ct = Ok (h, body).
+Proof. exact conn_roundtrip. Qed.
+Print Assumptions C04_conn_roundtrip.
+
 (* Neither direction can panic, whatever the inputs (the IGE block guards always hold). *)
 Theorem C04_encrypt_total :
   forall sha256 aes_enc s k h p rnd, encrypt sha256 aes_enc s k h p rnd <> Panic.
